@@ -7,8 +7,24 @@ package main
 // correctly linked and signed block H+2 containing T - with T pooled and not pooled, VerifyTransactions on/off.
 
 import (
+	"bytes"
 	"fmt"
 	"strings"
+
+	"github.com/nspcc-dev/neo-go/pkg/core"
+	"github.com/nspcc-dev/neo-go/pkg/core/native"
+	"github.com/nspcc-dev/neo-go/pkg/core/native/noderoles"
+	"github.com/nspcc-dev/neo-go/pkg/core/state"
+	"github.com/nspcc-dev/neo-go/pkg/crypto/keys"
+	nio "github.com/nspcc-dev/neo-go/pkg/io"
+	"github.com/nspcc-dev/neo-go/pkg/smartcontract"
+	"github.com/nspcc-dev/neo-go/pkg/smartcontract/callflag"
+	"github.com/nspcc-dev/neo-go/pkg/smartcontract/manifest"
+	"github.com/nspcc-dev/neo-go/pkg/smartcontract/nef"
+	"github.com/nspcc-dev/neo-go/pkg/vm/emit"
+	"github.com/nspcc-dev/neo-go/pkg/vm/opcode"
+	"github.com/nspcc-dev/neo-go/pkg/vm/stackitem"
+	"github.com/nspcc-dev/neo-go/pkg/wallet"
 
 	"github.com/nspcc-dev/neo-go/pkg/core/block"
 	"github.com/nspcc-dev/neo-go/pkg/core/native/nativenames"
@@ -16,7 +32,7 @@ import (
 	"github.com/nspcc-dev/neo-go/pkg/neotest"
 )
 
-var c06StaleFams = []string{"control", "vub", "conflict-in", "conflict-out", "balance", "blocked", "nvb"}
+var c06StaleFams = []string{"control", "vub", "conflict-in", "conflict-out", "balance", "blocked", "nvb", "oracle"}
 
 type c06StaleIn struct {
 	Cfg    c02Cfg    `json:"cfg"`
@@ -53,10 +69,23 @@ func c06RunStale(co *caseOut, in c06StaleIn) error {
 		e := neotest.NewExecutor(t, rb, vs, vs)
 		accs := c02Accounts()
 		gas := e.NativeHash(t, nativenames.Gas)
-		var T *transaction.Transaction
+		var T, b1txsOracle *transaction.Transaction
 		var b1, b2, b2alt *block.Block
+		var pre []*block.Block // family-specific preparation blocks (all replicas process them first)
 		var freshErr error
+		H := H
 		fail = c02Try(func() {
+			if fam == "oracle" {
+				T, b1txsOracle = c06OracleSetup(t, e, rb)
+				for i := H + 1; i <= rb.BlockHeight(); i++ {
+					pb, err := rb.GetBlock(rb.GetHeaderHash(i))
+					if err != nil {
+						panic(err)
+					}
+					pre = append(pre, pb)
+				}
+				H = rb.BlockHeight()
+			}
 			mkT := func(from int, vub uint32, sysfee int64, attrs ...transaction.Attribute) *transaction.Transaction {
 				tx := e.NewUnsignedTx(t, gas, "transfer", accs[from].ScriptHash(), accs[(from+1)%c02NAcc].ScriptHash(), 1, nil)
 				tx.ValidUntilBlock = vub
@@ -90,6 +119,9 @@ func c06RunStale(co *caseOut, in c06StaleIn) error {
 				b1txs = append(b1txs, e.SignTx(t, blk, 5_0000_0000, e.Committee))
 			case "nvb":
 				T = mkT(0, H+5, 1_0000_0000, transaction.Attribute{Type: transaction.NotValidBeforeT, Value: &transaction.NotValidBefore{Height: H + 3}})
+			case "oracle":
+				// T answers request 0; the intervening block carries ANOTHER response to the same request
+				b1txs = append(b1txs, b1txsOracle)
 			default:
 				panic("unknown family " + fam)
 			}
@@ -120,6 +152,12 @@ func c06RunStale(co *caseOut, in c06StaleIn) error {
 		}
 		func() {
 			defer v.Close()
+			for _, pb := range pre {
+				if err := v.AddBlock(pb); err != nil {
+					viol("setup-pre", err.Error())
+					return
+				}
+			}
 			if pooled {
 				if err := v.PoolTx(T); err != nil {
 					if fam == "nvb" {
@@ -211,4 +249,61 @@ func c06StaleOps() []string {
 		ops = append(ops, f+"/pooled/noverify", f+"/fresh/noverify")
 	}
 	return ops
+}
+
+// c06OracleSetup deploys a minimal contract that files an oracle request, designates one oracle node, funds
+// its multisignature address and files request 0 (three blocks).  It returns two different, individually valid
+// response transactions for request 0.
+func c06OracleSetup(t *c02T, e *neotest.Executor, bc *core.Blockchain) (*transaction.Transaction, *transaction.Transaction) {
+	oracleHash := e.NativeHash(t, nativenames.Oracle)
+	w := nio.NewBufBinWriter()
+	emit.AppCall(w.BinWriter, oracleHash, "request", callflag.All, "https://c06.example/x", nil, "cb", nil, int64(2000_1234))
+	emit.Opcodes(w.BinWriter, opcode.DROP, opcode.RET)
+	cbOff := w.Len()
+	emit.Instruction(w.BinWriter, opcode.INITSLOT, []byte{0, 4})
+	emit.Opcodes(w.BinWriter, opcode.RET)
+	ne, err := nef.NewFile(w.Bytes())
+	if err != nil {
+		panic(err)
+	}
+	m := manifest.NewManifest("c06orc")
+	m.ABI.Methods = []manifest.Method{
+		{Name: "req", Offset: 0, ReturnType: smartcontract.VoidType, Parameters: []manifest.Parameter{}},
+		{Name: "cb", Offset: cbOff, ReturnType: smartcontract.VoidType, Parameters: []manifest.Parameter{
+			manifest.NewParameter("url", smartcontract.StringType), manifest.NewParameter("data", smartcontract.AnyType),
+			manifest.NewParameter("code", smartcontract.IntegerType), manifest.NewParameter("res", smartcontract.ByteArrayType)}},
+	}
+	perm := manifest.NewPermission(manifest.PermissionWildcard)
+	perm.Methods.Value = nil
+	m.Permissions = []manifest.Permission{*perm}
+	c := &neotest.Contract{Hash: state.CreateContractHash(e.Validator.ScriptHash(), ne.Checksum, m.Name), NEF: ne, Manifest: m}
+	e.DeployContract(t, c, nil)
+	// one oracle node with a fixed key
+	pk, _ := keys.NewPrivateKeyFromBytes(append(bytes.Repeat([]byte{0x55}, 31), 3))
+	acc := wallet.NewAccountFromPrivateKey(pk)
+	pub := acc.PublicKey()
+	desig := e.CommitteeInvoker(e.NativeHash(t, nativenames.Designation))
+	desig.Invoke(t, stackitem.Null{}, "designateAsRole", int(noderoles.Oracle), []any{pub.Bytes()})
+	if err := acc.ConvertMultisig(1, []*keys.PublicKey{pub}); err != nil {
+		panic(err)
+	}
+	multi := neotest.NewMultiSigner(acc)
+	gasInv := e.CommitteeInvoker(e.NativeHash(t, nativenames.Gas))
+	gasInv.Invoke(t, true, "transfer", gasInv.CommitteeHash, multi.ScriptHash(), 100_0000_0000, nil)
+	e.ValidatorInvoker(c.Hash).Invoke(t, stackitem.Null{}, "req")
+	resp := func(result []byte) *transaction.Transaction {
+		tx := transaction.New(native.CreateOracleResponseScript(oracleHash), 1000_0000)
+		tx.Nonce = neotest.Nonce()
+		tx.ValidUntilBlock = bc.BlockHeight() + 3
+		tx.Attributes = []transaction.Attribute{{Type: transaction.OracleResponseT,
+			Value: &transaction.OracleResponse{ID: 0, Code: transaction.Success, Result: result}}}
+		tx.Signers = []transaction.Signer{{Account: multi.ScriptHash(), Scopes: transaction.None}, {Account: oracleHash, Scopes: transaction.None}}
+		tx.NetworkFee = 1000_1234
+		tx.Scripts = []transaction.Witness{
+			{InvocationScript: multi.SignHashable(uint32(bc.GetConfig().Magic), tx), VerificationScript: multi.Script()},
+			{InvocationScript: []byte{}, VerificationScript: []byte{}},
+		}
+		return tx
+	}
+	return resp([]byte{1, 2, 3}), resp([]byte{9, 9})
 }
